@@ -32,6 +32,7 @@ Definition cl_sen_Parser : list (string * cls) :=
 Definition cl_sen_Tokenizer : list (string * cls) :=
   [("line", Reset); ("noff", Reset); ("tmp", Reset); ("starts", Reset); ("handler", Reset); ("mode", Reset); ("mi", Reset);
    ("exkey", Reset);
+   ("quoteDelim", Scratch);  (* stored at the opening quote of every string before the closing one is looked for *)
    ("runeBytes", Scratch); ("ri", Scratch); ("rn", Scratch); ("num", Scratch); ("OnlyOne", Config)].
 Definition cl_oj_Writer : list (string * cls) :=
   [("buf", Reset); ("w", Reset); ("appendArray", Reset); ("appendObject", Reset); ("appendDefault", Reset); ("appendString", Reset);
